@@ -272,13 +272,24 @@ impl Walrus {
                     }
                 }
             } else {
-                // No persisted tail; init at current active block start
-                persisted_tail = Some((active_block.id, 0));
+                // No persisted tail in this call: start from the progress already made in the
+                // active block in this process (its start if there is none). Persisting offset 0
+                // here would overwrite the durable position of entries that were already
+                // consumed from this block, and they would be delivered again after a restart.
+                let init_off = if tail_snapshot.0 == active_block.id {
+                    tail_snapshot.1
+                } else {
+                    0
+                };
+                persisted_tail = Some((active_block.id, init_off));
                 if checkpoint {
                     if self.should_persist(&mut info, true) {
                         if let Ok(mut idx_guard) = self.read_offset_index.write() {
-                            let _ =
-                                idx_guard.set(col_name.to_string(), active_block.id | TAIL_FLAG, 0);
+                            let _ = idx_guard.set(
+                                col_name.to_string(),
+                                active_block.id | TAIL_FLAG,
+                                init_off,
+                            );
                         }
                     }
                 }
